@@ -134,11 +134,12 @@ def range_params(args):
 def positions(start, stop, step):
     """the integers a range / a slice selects: start, start+step, .. below stop;
     for a negative step from the other end: stop-1, stop-1+step, .. not below start"""
-    if step > 0:
-        return list(range(start, stop, step))
-    if step < 0:
-        return list(range(stop - 1, start - 1, step))
-    raise Undef('step 0')
+    if step == 0:
+        raise Undef('step 0')
+    r = range(start, stop, step) if step > 0 else range(stop - 1, start - 1, step)
+    if len(r) > 4000:
+        raise Undef('longer than the walks of the harness (cut off at 10004 items)')
+    return list(r)
 
 
 def slice_arg(part, n, a):
@@ -440,7 +441,11 @@ def shrink(case, fails, budget=400):
             if budget <= 0:
                 break
             s = unparse(c)
-            if len(s) < len(unparse(e)) + 2 and s != unparse(e) and fails(s):
+            try:
+                bad = len(s) < len(unparse(e)) + 2 and s != unparse(e) and fails(s)
+            except Exception:
+                bad = False
+            if bad:
                 e = c; improved = True
                 break
     return unparse(e)
@@ -529,7 +534,11 @@ def big_range(rng):
         st = rng.choice([1, -1, 2, -3])
         a = pick(); b = max(-B, min(B, a + rng.randrange(-6, 7)))
         return 'range %d,%d,%d' % (a, b, st)
-    return 'range %d,%d,%d' % (pick(), pick(), st)
+    a, b = pick(), pick()
+    if abs(b - a) // abs(st) > 60:                    # keep the number of items small
+        st = (abs(b - a) // rng.randrange(1, 40) + 1) * (1 if st > 0 else -1)
+        st = max(-B, min(B, st))
+    return 'range %d,%d,%d' % (a, b, st)
 
 
 def opt_box(b):
@@ -765,6 +774,8 @@ def run(ctx):
                                                'with one child per case because the in-process run crashed, hung or lost a line')
     if os.environ.get('C11_DEBUG'):
         print('oracle_fail %d corr_fail %d' % (len(d.oracle_fail), len(d.corr_fail)))
+        for x in d.oracle_fail[:int(os.environ['C11_DEBUG'])]:
+            print('ORACLE', x[0], '\n   ', x[4], '\n   ', x[1][:300])
         nc = [x for x in d.corr_fail if 'CRASH' not in x[4]]
         print('corr_fail without CRASH: %d' % len(nc))
         for x in nc[:int(os.environ['C11_DEBUG'])]:
